@@ -26,7 +26,7 @@ from oracle import inline as INL        # noqa: E402
 from oracle import objdump_model as OM  # noqa: E402
 from vf import replay                   # noqa: E402
 
-MN = ["mov", "push", "pop", "nop", "ret", "add", "call", "xor"]
+MN = ["mov", "push", "pop", "nop", "ret", "add", "call", "xor", "and", "or"]      # and / or: mnemonics that look like operator names
 MN_LIST = MN + ["movq", "nopw", "retq", "xorl"]
 OPN = ["%rax", "%rbx", "rax", "%eax", "0x8", "0x10", "%rcx"]
 FIELDS = ["%rax", "%rbx", "%eax", "%rcx", "0x8", "0x10", "0x100", "%raxx", "[%rax]", "[%rax+0x8]", "[%rax+%rbx*4]", "[%rax+%rbx*4+0x8]",
@@ -287,18 +287,24 @@ def modes_sweep(n: int, seed: int) -> Tuple[Dict[str, Any], List[Dict[str, Any]]
         ({"pattern": [{"nop": {"times": {"min": 0, "max": 3}}}]}, [("10", "push", ["%rbp"]), ("11", "nop", [""]), ("12", "nop", [""]), ("13", "ret", [""])]),
         ({"pattern": [{"call": {"times": {"min": 0, "max": 2}}}]}, [("10", "push", ["%rbp"]), ("11", "ret", [""])]),
         ({"pattern": ["ret"]}, [("ff8", "ret", [""]), ("ffd", "nop", [""]), ("1004", "ret", [""]), ("1009", "ret", [""])]),
+        # objdump -d of a static archive: one "file format" title per member, addresses restart
+        ({"pattern": ["call"]}, "In archive libdemo.a:\n\na.o:     file format elf64-x86-64\n\n\nDisassembly of section .text:\n\n0000000000000000 <f>:\n"
+                                "   0:\t55                   \tpush   %rbp\n   4:\te8 00 00 00 00       \tcall   9 <f+0x9>\n   9:\tc3                   \tret\n"
+                                "\nb.o:     file format elf64-x86-64\n\n\nDisassembly of section .text:\n\n0000000000000000 <g>:\n"
+                                "   0:\t90                   \tnop\n   5:\te8 00 00 00 00       \tcall   a <g+0xa>\n   a:\tc3                   \tret\n"),
     ]
     for _ in range(n):
         rule = gen_rule(rnd)
         recs = gen_records(rnd, rule)
         cases.append((rule, recs))
-    jobs = [{"kind": "mop", "rule": r, "listing": listing_of(recs), "modes": ALL_MODES} for (r, recs) in cases]
+    text_of = lambda recs_: recs_ if isinstance(recs_, str) else listing_of(recs_)
+    jobs = [{"kind": "mop", "rule": r, "listing": text_of(recs), "modes": ALL_MODES} for (r, recs) in cases]
     res = replay.run_real(jobs, timeout=1800)
     viol = []
     for (rule, recs), r in zip(cases, res):
         why = modes_agree(r)
         if why:
-            viol.append({"input": {"rule": rule, "listing": listing_of(recs)}, "real": r, "disagreement": why})
+            viol.append({"input": {"rule": rule, "listing": text_of(recs)}, "real": r, "disagreement": why})
     return {"modes_sweep": {"cases": len(cases), "modes_per_case": 8, "bound": "same generators as den_sweep, through MasterOfPuppets on a listing file"}}, viol
 
 
@@ -428,9 +434,15 @@ def resolver_sweep() -> Tuple[Dict[str, Any], List[Dict[str, Any]]]:
     for body in level2:
         for formals in (["x"], ["x", "y"]):
             for vals in itertools.product(values, repeat=len(formals)):
-                call = {"@m": dict(zip(formals, vals))}
-                macro = {"name": "@m", "args": list(formals), "pattern": copy.deepcopy(body)}
-                cases.append((macro, call))
+                # the call may write the argument keys in any order (a mapping), and may omit a formal
+                orders = [list(zip(formals, vals))]
+                if len(formals) == 2:
+                    orders.append(list(reversed(orders[0])))
+                    orders.append(orders[0][1:])
+                for kv in orders:
+                    call = {"@m": dict(kv)}
+                    macro = {"name": "@m", "args": list(formals), "pattern": copy.deepcopy(body)}
+                    cases.append((macro, call))
     res = replay.run_real({"kind": "resolver", "cases": cases}, timeout=1800)["results"]
     viol = []
     for (macro, call), r in zip(cases, res):
@@ -504,6 +516,12 @@ def undefined_macro_sweep() -> Tuple[Dict[str, Any], List[Dict[str, Any]]]:
         rule2 = {"macros": body_defs2, "pattern": ["@user"]}
         jobs.append({"kind": "compile", "rule": rule2})
         ids.append(("defined-in-body", order, "rule", rule2, []))
+    # every case once more with the jasm logger at DEBUG level (`--debug`)
+    n0 = len(jobs)
+    for k in range(n0):
+        jobs.append(dict(jobs[k], debug=True))
+        pid, order, where, rule, docs = ids[k]
+        ids.append((pid, order + ":debug-logging", where, rule, docs))
     res = replay.run_real(jobs)
     viol = []
     for (pid, order, where, rule, docs), r in zip(ids, res):
@@ -540,6 +558,11 @@ def history_pool() -> List[Dict[str, Any]]:
         {"rule": {"macros": [{"name": "@p", "pattern": "ret"}], "pattern": ["@p"]}, "listing": L1},
         {"rule": {"config": {"sections": [".text"]}, "pattern": ["ret"]}, "listing": L1},
         # `config:` present but empty (None) and an empty mapping: whatever the operation does, it does it in every history
+        # a shared parameterised macro whose body refers to a macro that one rule defines and the other does not
+        {"rule": {"macros": [{"name": "@scratch", "pattern": "%rax"}], "pattern": [{"@store_to": {"dst": "%rbx"}}]}, "listing": L2,
+         "macros_files": [{"macros": [{"name": "@store_to", "args": ["dst"], "pattern": [{"movq": ["@scratch", "dst"]}]}]}]},
+        {"rule": {"macros": [{"name": "@other", "pattern": "nop"}], "pattern": [{"@store_to": {"dst": "%rbx"}}]}, "listing": L2,
+         "macros_files": [{"macros": [{"name": "@store_to", "args": ["dst"], "pattern": [{"movq": ["@scratch", "dst"]}]}]}]},
         {"rule": {"config": None, "pattern": [{"mov": ["rax"]}]}, "listing": L2},
         {"rule": {"config": {}, "pattern": [{"mov": ["rax"]}]}, "listing": L2},
     ]
@@ -572,7 +595,7 @@ def history_sweep(n: int, seed: int) -> Tuple[Dict[str, Any], List[Dict[str, Any
                 break
     return {"history_sweep": {"histories": len(seqs), "pool": len(pool),
                               "bound": "histories of 2-3 operations (all repeats, sampled i,j,i) plus two histories over the whole pool, "
-                                       "16 operations with differing flags / ranges / captures / macros / sections / empty config"}}, viol
+                                       "18 operations with differing flags / ranges / captures / macros / sections / empty config"}}, viol
 
 
 # --------------------------------------------------------------------------- parser (C08, C09, C10, C16)
@@ -961,11 +984,11 @@ def run(prop: str, tier: str, seed: int, force: bool = False) -> Tuple[Dict[str,
             plan += ["macros", "resolver", "undefined"]
         if prop in ("C19",):
             plan += ["undefined", "macros"]
-        if prop == "C14" or (force and prop in ("C01", "C15", "C18", "C13")):
+        if prop == "C14" or (force and prop in ("C01", "C15", "C18", "C13", "C19")):
             # the configuration in effect (flags, sections, range) must be this rule's: a refuted obligation about the
             # singleton is looked for as a concrete history of operations
             plan.append("history")
-        if prop in ("C08", "C09", "C10", "C16", "C06"):
+        if prop in ("C08", "C09", "C10", "C16", "C06") or (force and prop == "C07"):
             plan.append("parser")
         if prop == "C18" or (force and prop in ("C07", "C08", "C10", "C16")):
             # which instructions enter the stream also depends on the observers installed by valid_addr_range
